@@ -48,6 +48,47 @@ Theorem C19_interrupted_exception_sync_partial : forall c s s' e,
 Proof. exact interrupted_exception_sync_partial. Qed.
 Print Assumptions C19_interrupted_exception_sync_partial.
 
+(* WHERE THE CANCELLATION POINTS ARE.  The model checks the context before each
+   pipeline ([CCons]) and after each chunk ([CNil]), like pipelineOp.exec and
+   chunkOp.exec; loops ([FWhile] with a pure value condition, [FEach]) have no
+   check of their own.  The four theorems below hold for EVERY body, in particular
+   the empty chunk, because the check after a chunk does not depend on the chunk
+   having pipelines. *)
+
+(* every chunk evaluation, also of an empty chunk, passes at least one check *)
+Theorem C19_chunk_passes_a_check : forall c ko s s' e,
+  eval_chunk ko c s = (s', e) -> clk s < clk s'.
+Proof. exact chunk_passes_a_check. Qed.
+Print Assumptions C19_chunk_passes_a_check.
+
+(* a loop that completes k iterations passed at least k checks *)
+Theorem C19_every_loop_iteration_passes_a_check : forall ko k b s s',
+  (eval_form ko (FWhile k b) s = (s', None) -> clk s + k <= clk s')
+  /\ (eval_form ko (FEach k b) s = (s', None) -> clk s + k <= clk s').
+Proof. exact every_loop_iteration_passes_a_check. Qed.
+Print Assumptions C19_every_loop_iteration_passes_a_check.
+
+(* once the context is cancelled a loop runs no further iteration *)
+Theorem C19_cancelled_loop_stops : forall ko k b s,
+  is_cancelled ko s = true ->
+  eval_form ko (FWhile (S k) b) s = (tickclk s, Some XInt).
+Proof. exact cancelled_loop_stops. Qed.
+Print Assumptions C19_cancelled_loop_stops.
+
+(* liveness: a loop with at least as many iterations left as checks remain before
+   the interrupt (so: any loop that would run forever) does not complete -- it
+   returns an exception *)
+Theorem C19_long_loop_is_interrupted : forall t k b s s' e,
+  0 < k -> t <= clk s + k ->
+  eval_form (Some t) (FWhile k b) s = (s', e) -> e <> None.
+Proof. exact long_loop_is_interrupted. Qed.
+Print Assumptions C19_long_loop_is_interrupted.
+
+(* non-vacuity: an empty-body loop of 1000 iterations interrupted at check 5 *)
+Example C19_example_empty_loop :
+  run_prog (Some 5) (CCons (FWhile 1000 CNil) CNil) = (mkEs false 5 [EStart 1], Some XInt).
+Proof. vm_compute. reflexivity. Qed.
+
 (* the oracle evaluated on the recorded trace is sound *)
 Theorem C19_oracle_sound : forall ot r,
   check_sync ot r = true ->
